@@ -360,6 +360,8 @@ static void poly_run(const Args& a, const Dom& F) {
     uint64_t seed = a.W(3); int kind = (int)a.W(4); long arg = (long)a.SW(5);
     Givaro::GivRandom g(seed);
     typename PD::Element P, B;
+    // the destination is either fresh or (odd seeds) already holds a LONGER polynomial: what it held must not show in the draw
+    if (seed & 1) P.assign((size_t)((arg > 0 ? arg : 0) + 9), F.one);
     switch (kind) {
         case 0: D.random(g, P, Givaro::Degree(arg)); break;
         case 1: D.random(g, P, (uint64_t)arg); break;
